@@ -15,7 +15,7 @@ def rebuild_for_replay(rec):
 
 
 def run(chk):
-    per = chk.pick(1500, 12000)          # scenarios PER SHARD: the 3400-point schedule grid, then sampled transfers / lifecycle histories alternately
+    per = chk.pick(1500, 40000)          # scenarios PER SHARD: the 3400-point schedule grid, then sampled transfers / lifecycle histories alternately
     chk.run('asan', build(), per)
     n = per * vf.NCPU
     chk.rule = ('scenario = listener + client (+ accepted peer, duplicates) as spif_socket objects on UNIX-domain sockets in one process; '
@@ -34,7 +34,8 @@ def run(chk):
                         'by an error instead and counted',
                         'the sender\'s select() back-off sleeps are skipped (logical time)',
                         'protocol/service lookups answer "not found" (hermetic); INET sockets are not driven',
-                        'close() is never made to fail with EINTR (POSIX leaves the descriptor state unspecified)']
+                        'close() is never made to fail with EINTR (POSIX leaves the descriptor state unspecified)',
+                        'the library moves socket data through read()/write() (the interposed calls); the end-to-end comparison does not depend on it']
     chk.require('grid_transfers', GRID)
     chk.require('grid_schedules_fully_consumed', GRID * 9 // 10)
     chk.require('transfers_with_schedule_fully_consumed', n // 4)
